@@ -70,6 +70,8 @@ class Interp:
         self.bounded_loops = []                  # loops handled by bounded unrolling (reported as bounded)
         self.executed = set()                    # repo functions inlined while executing the unit
         self.loop_index = []                     # symbolic index of the enclosing cut loop / quantified body
+        self.opaque = {}                         # python callable -> (name, [exception classes]): abstracted callees
+        self.method_disciplines = {}
         self.unroll_bound = 3
 
     # ------------------------------------------------------------------ data roots
@@ -1026,6 +1028,13 @@ class Interp:
                     fnobj = _inspect.getattr_static(ho.cls, name)
                     if isinstance(fnobj, (staticmethod, classmethod)):
                         raise Unsupported("static/class method on heap instance")
+                    try:
+                        op = self.opaque.get(fnobj)
+                    except TypeError:
+                        op = None
+                    if op is not None:
+                        yield from self.call_opaque(st, fnobj, op, [selfv] + list(args), kwargs)
+                        return
                     rc = self.resolve_repo_callable(fnobj)
                     if rc is None:
                         raise Unsupported(f"method {name} of {ho.cls.__name__} is not repo source")
@@ -1049,6 +1058,13 @@ class Interp:
                 h = None
             if h is not None:
                 yield from h(self, st, args, kwargs)
+                return
+            try:
+                op = self.opaque.get(o)
+            except TypeError:
+                op = None
+            if op is not None:
+                yield from self.call_opaque(st, o, op, args, kwargs)
                 return
             rc = self.resolve_repo_callable(o)
             if rc is not None:
@@ -1099,6 +1115,34 @@ class Interp:
     def ctx_is_pure_callable(self, o):
         """Only real callables that cannot mutate analysis state may be probed."""
         return callable(o)
+
+    def call_opaque(self, st, o, spec, args, kwargs):
+        """A callee abstracted to `deterministic function of its arguments that may raise the listed exceptions`."""
+        name, raises = spec[0], spec[1]
+        opts = spec[2] if len(spec) > 2 else {}
+        if "returns_arg" in opts:
+            self.ctx.assume_note(f"callee `{name}` abstracted: returns its argument #{opts['returns_arg']} (only adds notes)")
+            yield st, ("ok", args[opts["returns_arg"]])
+            return
+        if "result_class" in opts:
+            self.ctx.assume_note(f"callee `{name}` abstracted: returns a new {opts['result_class'].__name__} object")
+            yield st, ("ok", self.make_exception(st, opts["result_class"], []))
+            return
+        self.ctx.assume_note(f"callee `{name}` abstracted: a deterministic function of its arguments that returns or raises "
+                             f"one of {[r.__name__ for r in raises]}")
+        ts = [self.term(st, a) for a in args] + [self.term(st, a) for _, a in sorted(kwargs.items())]
+        okf = z3.Function(f"opq_ok_{name}", *([T.Val] * len(ts)), T.B)
+        resf = z3.Function(f"opq_res_{name}", *([T.Val] * len(ts)), T.Val)
+        if not raises:
+            yield st, ("ok", V("sym", t=resf(*ts)))
+            return
+        for s, okb in self.fork_on(st, okf(*ts)):
+            if okb:
+                yield s, ("ok", V("sym", t=resf(*ts)))
+            else:
+                for n, r in enumerate(raises):
+                    s2 = s if n == len(raises) - 1 else s.fork()
+                    yield s2, (RAISE, self.make_exception(s2, r, []))
 
     def resolve_repo_callable(self, o):
         """A python function / bound method defined in /repo's source: returns (Closure over its real AST, self)."""
@@ -1215,7 +1259,9 @@ class Interp:
                     yield s1, r
             else:
                 for s1, sig in self.exec_block(clo.node.body, st):
+                    callee_locals = s1.env
                     s1.env = dict(saved_env)
+                    s1.env["$callee_locals"] = callee_locals
                     s1.yielded = saved_yielded
                     if sig is None:
                         yield s1, ("ok", const(None))
